@@ -64,7 +64,37 @@ func lookupFacts(s *src, f *facts) {
 	mbn := first(allShallow(body, func(c *ast.CallExpr) bool {
 		return s.str(c.Fun) == cur+".MethodByName" && len(c.Args) == 1 && s.str(c.Args[0]) == parts+"[len("+parts+")-1]"
 	}))
-	f.b("lkMethodByNameOnLast", mbn != nil && before(rng, mbn), s.pos(mbn))
+	// the method is looked up on the value the walk ended on: nothing between the walk and the lookup replaces it
+	// (e.g. by its address, which would expose the pointer method set of a sub-object nested by value)
+	untouched := true
+	if body != nil && rng != nil && mbn != nil {
+		after := false
+		for _, st := range body.List {
+			if ast.Node(st) == ast.Node(rng) {
+				after = true
+				continue
+			}
+			if !after {
+				continue
+			}
+			if contains(st, mbn) {
+				break
+			}
+			for _, a := range all[*ast.AssignStmt](st, nil) {
+				for _, l := range a.Lhs {
+					if s.str(l) == cur {
+						untouched = false
+					}
+				}
+			}
+		}
+		for _, c := range all[*ast.CallExpr](body, nil) {
+			if strings.HasSuffix(s.str(c.Fun), ".Addr") {
+				untouched = false
+			}
+		}
+	}
+	f.b("lkMethodByNameOnLast", mbn != nil && before(rng, mbn) && untouched, s.pos(mbn))
 	nonFunc := first(allShallow(body, func(i *ast.IfStmt) bool {
 		return strings.HasSuffix(s.str(i.Cond), ".Kind() != reflect.Func") && before(mbn, i) && len(all[*ast.ReturnStmt](i.Body, nil)) > 0
 	}))
@@ -260,7 +290,16 @@ func convertFacts(s *src, f *facts) {
 	}))
 	f.b("cvUnwrapsInterfaces", unwrap != nil, s.pos(unwrap))
 	conv := first(allShallow(body, func(i *ast.IfStmt) bool {
-		return s.str(i.Cond) == "srcVal.Type().ConvertibleTo(dstType)" && strings.Contains(s.str(i.Body), "srcVal.Convert(dstType)")
+		if s.str(i.Cond) != "srcVal.Type().ConvertibleTo(dstType)" || !strings.Contains(s.str(i.Body), "srcVal.Convert(dstType)") {
+			return false
+		}
+		// a convertible value is never refused: every return of the branch carries a nil error
+		for _, r := range all[*ast.ReturnStmt](i.Body, nil) {
+			if len(r.Results) != 2 || s.str(r.Results[1]) != "nil" {
+				return false
+			}
+		}
+		return true
 	}))
 	inv := first(allShallow(body, func(i *ast.IfStmt) bool {
 		return s.str(i.Cond) == "!srcVal.IsValid()" && strings.Contains(s.str(i.Body), "reflect.Zero(dstType)") && before(i, conv) && before(unwrap, i)
